@@ -3,7 +3,10 @@
    reads; literals through regex::escape) and as this tree; the language is small enough that
    leftmost-first backtracking below is what the `regex` crate computes:
      pattern ::= ['^'] item* ['$']      item ::= atom | (?P<payee>atom) | (?P<code>atom)
-     atom    ::= literal (matched ASCII-case-insensitively) | [0-9]+ | .*
+     atom    ::= literal (matched ASCII-case-insensitively) | [0-9]+ | [0-9]* [written \d* in the source] | .*
+   `.*` and `[0-9]*` are greedy and may match the EMPTY string: a named group around them that
+   matched empty still participates in the match (regex::Captures::name is Some("")), so it sets
+   payee / code to the empty text.  An empty item list under ^..$ is the pattern `^$`.
    Text is UTF-8 bytes without line breaks and without U+212A / U+017F (the two non-ASCII
    characters that fold to ASCII letters). *)
 From Coq Require Import List NArith Bool.
@@ -11,7 +14,7 @@ From Okv Require Import Model.ImpConfig Model.ImpExtract.
 Import ListNotations.
 Open Scope N_scope.
 
-Inductive atom := ALit (s : str) | ADigits | ARest.
+Inductive atom := ALit (s : str) | ADigits | ADigits0 | ARest.
 Inductive item := IAtom (a : atom) | IPayee (a : atom) | ICode (a : atom).
 Record pat := { p_src : str; p_start : bool; p_items : list item; p_end : bool; p_valid : bool }.
 
@@ -40,6 +43,7 @@ Definition candidates (a : atom) (s : str) : list (str * str) :=
               | None => []
               end
   | ADigits => filter (fun p => match fst p with [] => false | _ => true end) (splits is_dig s)
+  | ADigits0 => splits is_dig s
   | ARest => splits (fun c => negb (c =? 10)) s
   end.
 
